@@ -199,11 +199,25 @@ CLAIMS['C12'] = dict(
     technique='Verus contracts on extracted XmlConverter::write/write_node against a ghost event log',
 )
 
+CLAIMS['C20'] = dict(
+    text=('PARTIAL, narrow (the position kernel only): for every token list the tokenizer can produce and EVERY (line, character) in u32 a '
+          'client can send, the real cursor -> token lookups (token_index_at, token_at, token_prefix_at, cursor_in_string, '
+          'collect_dot_path) and the 1-based/0-based conversions (ucg_pos_to_range, the delta encoding of encode_semantic_tokens) never '
+          'panic or overflow, terminate, and return exactly the specified token / prefix / dot path; ranges derived from the token under '
+          'the cursor lie on the requested line with start <= end; semantic-token deltas decode to real token positions. NOT covered: '
+          'the JSON-RPC loop (a request whose params do not deserialize terminates the server - recorded, not claimed), the '
+          'diagnostics-equal-fresh-server and parser-agreement clauses, the workspace index.'),
+    design_ref='DESIGN.md §5 C20',
+    note=('Trusted: Verus/Z3; lsp_types Position/Range/SemanticToken extracted from the pinned dependency; verified loop models for '
+          'position/find/rfind/chars().take(); tokens in document order and documents below 4 GiB per dimension (requires); '
+          'LSP character = UTF-16 units vs ucg byte columns is a precision limit of the real code, not a totality issue.'),
+    technique='Verus totality + functional contracts on extracted LSP position functions',
+)
+
 NOT_APPLICABLE = {
     'C07': 'relational completeness between the whole type checker and the whole evaluator; no per-function contract within reach of Verus/Kani states "accepts what runs" (DESIGN §5 C07)',
     'C09': 'quantifies over file-system trees, working directories and import graphs; mechanisms are a generic &mut-AST walker, std::path and RefCell caches re-entered through recursive VM::run - not expressible as function contracts the installed verifiers can check (DESIGN §5 C09)',
     'C16': 'hyperproperty over runs of a process (sets/orders of files) through cross-file memoisation; needs the whole compiler specified as a function of the file system (DESIGN §5 C16)',
     'C17': 'diagnostic positions are plumbed through ~120 translator push sites and parser-combinator error contexts; needs end positions the AST does not carry and relates two runs (DESIGN §5 C17)',
     'C19': 'the helpers are UCG programs (std/*.ucg), not Rust; neither verifier reads UCG (DESIGN §5 C19)',
-    'C20': 'history property of a JSON-RPC loop over lsp-server/serde and the whole lenient compiler pipeline (DESIGN §5 C20)',
 }
